@@ -6,7 +6,7 @@ import time
 EFF = {"pa": "print('a')", "pae": "print('a', end='')", "pn": "print()", "pas": "print('a ')",
        "pab": "print('a', 'b', sep='\\t')", "w": "sys.stdout.write('b')", "sp": "print('  ')",
        "pnn": "print('\\n')", "in": "v = input('p')", "st": "sys.settrace(None)",
-       "im": "import helper_mod"}
+       "im": "import helper_mod", "cb": "hook()"}
 HELPER_MOD = "def helper_value():\n    return 41\nLOADED = helper_value() + 1\n"
 EXTRA_FILES = {"helper_mod.py": HELPER_MOD, "bad_mod.py": "y = 2\nraise ValueError('in helper file')\n",
                "exit_mod.py": "import sys\nsys.exit(2)\n", "fn_mod.py": "def boom():\n    raise KeyError('k')\n",
@@ -84,6 +84,8 @@ class CustomInit(Exception):
         self.a, self.b = a, b
 def helper_raises():
     raise ValueError('from helper')
+def cbf():
+    return 1
 """
 HELPER_RAISE_LINE = PRELUDE.rstrip("\n").split("\n").index("    raise ValueError('from helper')") + 1
 
@@ -132,6 +134,8 @@ class Harness:
         self.threaded = bool(file.get("threaded", False))
         # nested imports of student files consult the sandbox's own flag, not the per-call argument
         self.sandbox.threaded = self.threaded
+        # hook(): an instructor-supplied callable handed to the student's code that calls back into the sandbox
+        self.sandbox.data["hook"] = lambda: C.call("cbf", report=self.report)
         if file.get("blocked", "none") != "none":
             C.block_module(file["blocked"], report=self.report)
         style = file.get("tracer", "none")
@@ -144,6 +148,7 @@ class Harness:
         sys.settrace(harness_tracer)
         self.orig_out = sys.stdout
         self.orig_sleep = time.sleep
+        self.orig_modules = dict(sys.modules)
         self.seen_fbs = 0
         self.fbs = []
 
@@ -219,7 +224,8 @@ class Harness:
                 ex = f.fields.get("exception") if isinstance(f.fields, dict) else None
                 cls = type(ex).__name__ if ex is not None else "?"
                 mode = prog["mode"] if prog and class_matches(prog["mode"], cls) else "other:" + cls
-                self.fbs.append({"exec": len(sb._context), "mode": mode})
+                self.fbs.append({"exec": len(sb._context) - (list(prog["effs"]).count("cb") if prog and prog["mode"] not in ("syntax", "nul") else 0),
+                                 "mode": mode})
                 if prog and prog["mode"] in STUDENT_LINE:
                     want = self.where["top" if a["op"] in ("run", "run_in") else a["i"]]
                     got = f.location.line if f.location is not None else None
@@ -253,6 +259,15 @@ class Harness:
         sys.stdout = self.orig_out
         time.sleep = self.orig_sleep
         sys.settrace(None)
+        # whatever the code under test left in the module table must not reach the next behaviour
+        for name in list(sys.modules):
+            if name not in self.orig_modules:
+                del sys.modules[name]
+        for name, mod in self.orig_modules.items():
+            if sys.modules.get(name) is not mod:
+                sys.modules[name] = mod
+        del sb._current_patches[:]
+        del sb._current_stdout[:]
 
 
 def unwrap(v):
